@@ -255,6 +255,12 @@ var (
 		"unicode éè 世界",
 		"x",
 		"trailing dot.",
+		// texts that mean something to a formatter: escapes in URLs, percent signs, verbs, tabs
+		"Get \"http://localhost:6060/a%20b?q=%2F\": EOF",
+		"100% of the requests failed",
+		"parse \"http://h/%zz\": invalid URL escape \"%zz\"",
+		"%s %d %v %!s(MISSING) %%",
+		"tab\tseparated\ttext",
 	}
 )
 
